@@ -23,6 +23,7 @@ CONSTANTS Filters,      \* d x nd integer matrix (unit step domain)
           BgPool,       \* sequence of background spectra (length nd integer sequences)
           XaPool,       \* sequence of adaptation intensity vectors (integer sequences, any length: must match n)
           TgtPool,      \* sequence of target sets (sequence of d-vectors of rationals)
+          WPool,        \* sequence of explicit per-receptor weightings W (d-vectors of integers) for register_targets
           MaxDK         \* magnitude guard: adaptation steps whose common denominator exceeds it are not explored
 
 VARIABLES est, hist
@@ -44,7 +45,7 @@ CaptureMatrix(src) == [i \in 1..D0 |-> [k \in 1..Len(src) |-> TrapzUnit2(Prod(Fi
 
 InitEst == [K |-> RDiag(Vec(D0, R1)), kshape |-> "1", bl |-> Vec(D0, R0), blshape |-> "1",
             reg |-> FALSE, A |-> <<>>, lb |-> <<>>, ub |-> <<>>,
-            treg |-> FALSE, tB |-> <<>>, fitted |-> FALSE, nfit |-> 0]
+            treg |-> FALSE, tB |-> <<>>, W |-> Vec(D0, 1), fitted |-> FALSE, nfit |-> 0]
 
 Init == est = InitEst /\ hist = <<>>
 
@@ -106,10 +107,12 @@ RegisterSystemAdaptation(k, add, ab) ==
         /\ est' = Adapt(q, add, ab)
   /\ Log(Act("register_system_adaptation", k, add, ab))
 
-RegisterTargets(k) ==
+(* W not passed (wk = 0): the weighting falls back to the constructor's w (ones)   *)
+RegisterTargets(k, wk) ==
   /\ est.reg
-  /\ est' = [est EXCEPT !.treg = TRUE, !.tB = TgtPool[k], !.fitted = FALSE, !.nfit = 0]
-  /\ Log(Act("register_targets", k, FALSE, FALSE))
+  /\ est' = [est EXCEPT !.treg = TRUE, !.tB = TgtPool[k], !.fitted = FALSE, !.nfit = 0,
+                        !.W = IF wk = 0 THEN Vec(D0, 1) ELSE WPool[wk]]
+  /\ Log(Act("register_targets", 10 * k + wk, FALSE, FALSE))
 
 (* ---- registered state -> Systems record ------------------------------------- *)
 Flat(M) == [k \in 1..(Len(M) * Len(M[1])) |-> M[((k - 1) \div Len(M[1])) + 1][((k - 1) % Len(M[1])) + 1]]
@@ -166,7 +169,7 @@ Answers(e) ==
    K |-> e.K, kshape |-> e.kshape, baseline |-> e.bl,
    registered |-> e.reg, registered_targets |-> e.treg,
    lb |-> e.lb, ub |-> e.ub,
-   tB |-> e.tB, fitted |-> e.fitted, nfit |-> e.nfit,
+   tB |-> e.tB, W |-> e.W, fitted |-> e.fitted, nfit |-> e.nfit,
    sys |-> IF e.reg THEN SysAnswers(e) ELSE [none |-> TRUE]]
 
 (* a read-only query: stutters on the registered state                            *)
@@ -179,7 +182,7 @@ Register ==
   \/ \E k \in 1..Len(BlPool) : RegisterBaseline(k)
   \/ \E k \in 1..Len(BgPool), add \in BOOLEAN, ab \in BOOLEAN : RegisterBackgroundAdaptation(k, add, ab)
   \/ \E k \in 1..Len(XaPool), add \in BOOLEAN, ab \in BOOLEAN : RegisterSystemAdaptation(k, add, ab)
-  \/ \E k \in 1..Len(TgtPool) : RegisterTargets(k)
+  \/ \E k \in 1..Len(TgtPool), wk \in 0..Len(WPool) : RegisterTargets(k, wk)
   \/ FitInternal
 ENext == Register \/ Query
 
@@ -192,12 +195,12 @@ FrameOK ==
   [][LET a == hist'[Len(hist')]
      IN hist' # hist =>
         /\ (a.op \in {"register_adaptation", "register_background_adaptation", "register_system_adaptation"}
-              => \A f \in {"bl", "blshape", "reg", "A", "lb", "ub", "treg", "tB", "fitted", "nfit"} : ~Wrote(f))
-        /\ (a.op = "register_baseline" => \A f \in {"K", "kshape", "reg", "A", "lb", "ub", "treg", "tB", "fitted", "nfit"} : ~Wrote(f))
-        /\ (a.op = "register_bounds" => \A f \in {"K", "kshape", "bl", "blshape", "reg", "A", "treg", "tB", "fitted", "nfit"} : ~Wrote(f))
-        /\ (a.op = "register_system" => \A f \in {"K", "kshape", "bl", "blshape", "treg", "tB", "fitted", "nfit"} : ~Wrote(f))
+              => \A f \in {"bl", "blshape", "reg", "A", "lb", "ub", "treg", "tB", "W", "fitted", "nfit"} : ~Wrote(f))
+        /\ (a.op = "register_baseline" => \A f \in {"K", "kshape", "reg", "A", "lb", "ub", "treg", "tB", "W", "fitted", "nfit"} : ~Wrote(f))
+        /\ (a.op = "register_bounds" => \A f \in {"K", "kshape", "bl", "blshape", "reg", "A", "treg", "tB", "W", "fitted", "nfit"} : ~Wrote(f))
+        /\ (a.op = "register_system" => \A f \in {"K", "kshape", "bl", "blshape", "treg", "tB", "W", "fitted", "nfit"} : ~Wrote(f))
         /\ (a.op = "register_targets" => \A f \in {"K", "kshape", "bl", "blshape", "reg", "A", "lb", "ub"} : ~Wrote(f))
-        /\ (a.op = "fit" => \A f \in {"K", "kshape", "bl", "blshape", "reg", "A", "lb", "ub", "treg", "tB"} : ~Wrote(f))
+        /\ (a.op = "fit" => \A f \in {"K", "kshape", "bl", "blshape", "reg", "A", "lb", "ub", "treg", "tB", "W"} : ~Wrote(f))
     ]_evars
 (* after adapting to a background (baseline included) its relative capture is 1     *)
 AdaptedBackgroundIsOne ==
